@@ -1,9 +1,9 @@
 #!/bin/sh
 # tools/mutate.sh <PID> <file relative to repo> <python-expr old> <python-expr new>
-# Applies a one-line textual edit in a scratch worktree of /repo HEAD, runs the quick check against it, removes the worktree.
+# Applies a one-line textual edit in a scratch worktree of /repo at $MUT_BASE (default main; set MUT_BASE=fix-cxx to mutate your fix branch), runs the quick check against it, removes the worktree.
 PID="$1"; FILE="$2"; OLD="$3"; NEW="$4"
 WT=$(mktemp -d /tmp/mutXXXXXX); rmdir "$WT"
-git -C /repo worktree add -f "$WT" HEAD >/dev/null 2>&1 || exit 2
+git -C /repo worktree add -f --detach "$WT" "${MUT_BASE:-main}" >/dev/null 2>&1 || exit 2
 /venv/bin/python - "$WT/$FILE" "$OLD" "$NEW" <<'PY'
 import sys
 p, old, new = sys.argv[1:4]
